@@ -35,6 +35,17 @@ Shapes beyond the plain ones (all inside the guard `WellFormedWs` of the theorem
   such a line are expected to resolve as the chain's next members (`continuation`), and a position
   between the dot and that name is a position after the dot.
 
+* a name may be declared TWICE in one scope (w-scope4): a method announced by `proc X(...) forward` (once or twice) and defined
+  further down in the same class or module, a method an ancestor only announces and a descendant defines, a field / constant
+  declared twice, a local declared twice, a local named like a parameter — also in another letter case and (fields, locals)
+  with another type.  The table of a scope holds a name once, its LATEST declaration: that one is the target of
+  go-to-definition (one link per class of the chain), its spelling is the label, the name is offered once;
+* `const` / `type` / `var` statements between the statements of a method body: they are the METHOD's — visible (go to
+  definition, statement-start proposals: constants and variables, not types) in that method, also above their line, and
+  in no other method of the class or of a descendant; a constant of the body may be named like a constant of the class
+  chain (the method's is nearer).  Chains start only at variables declared above them (eval types are computed
+  during the walk).
+
 Every query carries `tags`: the scenario it exercises.  Tags that name a known deviation of the
 implementation become part of the oracle signature, so that a recorded finding never hides an
 unrelated failure.
@@ -339,7 +350,14 @@ class Gen:
                      and self.resolve_member(e, mm.decl.key())[:1] == [mm.decl]]
         if announced and r.chance(1, 2):
             a = r.choice(announced)
-            d = Decl(recase(r, a.name) if r.chance(1, 3) else a.name, a.kind, e, a.ty)
+            # same kind; the announced return type where its text means the same here (an alias / undeclared type name
+            # is looked up from the class that writes it)
+            ty = a.ty
+            if ty is not None and ty[0] not in ("native", "class"):
+                ty = self.pick_type(e, classes)
+                if ty[0] == "refto":
+                    ty = ("class", ty[1])
+            d = Decl(recase(r, a.name) if r.chance(1, 3) else a.name, a.kind, e, ty)
             e.methods.insert(r.below(len(e.methods) + 1), Method(d))
         if r.chance(1, 6):
             # a field declared twice (the second declaration possibly with another type / in another letter case)
@@ -1198,6 +1216,10 @@ class Gen:
             pre = (r.choice(vis)[:1 + r.below(3)] if vis and r.chance(3, 4) else "zq")
             if pre.upper() in [v.upper() for v in vis]:
                 pre = pre + "Zq"
+            if pre.upper() in ("IN", "IS", "OR", "AND", "NOT", "TO", "AS", "IF", "OF", "ON") or pre.lower() in KEYWORDS:
+                # `x.In` (of `Init`) is `x.` + the OPERATOR `in`: the following line would become its right operand (a `type`
+                # declaration on it — `type` is also an identifier — was swallowed: thorough tier, w1638)
+                pre = pre[:1]
             self.dot_query(L, e, m, elems[-1], {"partial"}, width=len(pre))
             col = L.col()
             L.add(pre)
